@@ -11,11 +11,11 @@ cp $wt/seed_out/notes.md $out/notes.md 2>/dev/null
 cd $wt && git checkout -q -- . && mkdir -p tests && cp seed_out/demo.rs tests/demo.rs
 export CARGO_NET_OFFLINE=true
 feat=""; grep -q "no-default-features" seed_out/notes.md 2>/dev/null && grep -qi "cfg!(feature\|must be run with .--no-default-features" seed_out/notes.md && feat="--no-default-features"
-base_demo=$(cargo test --offline --test demo $feat 2>&1 | grep -E "^test result" | head -1)
+base_demo=$(cargo test --offline --test demo $feat 2>&1 | grep -E "^test result:" | head -1)
 git apply seed_out/patch.diff
-suite=$(cargo test --offline --lib 2>&1 | grep -E "^test result" | head -1)
-doc=$(cargo test --offline --doc 2>&1 | grep -E "^test result" | head -1)
-mut_demo=$(cargo test --offline --test demo $feat 2>&1 | grep -E "^test result" | head -1)
+suite=$(cargo test --offline --lib 2>&1 | grep -E "^test result:" | head -1)
+doc=$(cargo test --offline --doc 2>&1 | grep -E "^test result:" | head -1)
+mut_demo=$(cargo test --offline --test demo $feat 2>&1 | grep -E "^test result:" | head -1)
 git checkout -q -- src; rm -rf tests target
 echo "demo on unchanged: $base_demo"; echo "suite with change: $suite / $doc"; echo "demo with change: $mut_demo"
 res=$(bash /verif/tools/partest.sh seed_$name $out/patch.diff $checks 2>&1 | grep -E "^PARTEST|->" )
